@@ -20,8 +20,15 @@ EXPLANATION = (
     "character, '%' and '_' escaped before '*'->'%' and '?'->'_', the escape= argument, and may only "
     "serve PN (SQLite LIKE is case-insensitive); a GLOB sink needs '[' neutralised and no other "
     "character translated. (operators) single value uses ==, UID list uses in_ on the element's values, "
-    "range uses inclusive >= / <= on the halves of a split on '-'. (hierarchy) _check_identifier raises "
-    "on exactly the five invalid-hierarchy conditions. (per-entity) C-FIND must answer once per entity "
+    "range uses inclusive >= / <= on the halves of a split on '-'. (hierarchy / all-keys / stored-form) "
+    "search(), _search_qr, _check_identifier, build_query and add_instance are evaluated by the checker's own "
+    "interpreter against recording stand-ins (session, query, columns, data set - sa/qr_eval.py; nothing of "
+    "sqlalchemy or pydicom runs) for both roots, the three operations, every query level (plus an unknown "
+    "and a missing one), every presence pattern of the unique keys, one required key at any level and a UID "
+    "list at the query level: the identifier is rejected exactly when its hierarchy is invalid; a valid one "
+    "yields exactly one condition per key, on the key's own column, in one chained query; and the value "
+    "add_instance indexes for a key has the representation single-value matching compares the column with "
+    "(an IS key is a number on both sides). (per-entity) C-FIND must answer once per entity "
     "of the query level. Not decided: SQL collation/engine behaviour beyond SQLite's documented LIKE / "
     "GLOB, optional keys, sequence matching."
 )
